@@ -78,6 +78,13 @@ def run(ctx, prop):
     for r in rows:
         cid, mflag, got, direct, what = r[:5]
         req = r[5:]
+        seq = None
+        if "SEQ" in req:
+            i = req.index("SEQ")
+            t = req[i + 1:]
+            req = req[:i]
+            seq = {"call_index": int(t[0]), "via_readmsg": t[1] == "1",
+                   "calls": [[t[j], t[j + 1]] for j in range(2, len(t) - 1, 2)]}
         kind = req[0]
         evals += 1
         classes[kind + ":" + cls(got)] = classes.get(kind + ":" + cls(got), 0) + 1
@@ -99,6 +106,10 @@ def run(ctx, prop):
             why = direct[4:]
             if why.startswith("panic"):
                 oracle, verdict = "no_panic", "panic"
+            elif "changed after call" in why:
+                oracle, verdict = "sequence", "kept-message-changed-by-later-call"
+            elif "input packet buffer" in why:
+                oracle, verdict = "sequence", "input-buffer-modified"
             elif "accepted" in why or "not refused" in why:
                 oracle, verdict = "must_refuse", "accepted"
             else:
@@ -107,7 +118,7 @@ def run(ctx, prop):
             C.violation(ctx, "%s:%s:%s" % (ENTRY.get(kind, kind).split(" ")[0], verdict, faultkind),
                         "%s (%s): %s; implementation gives %s" % (ENTRY.get(kind, kind), what, why, short(got, 80)),
                         replay_obj(req, oracle, model.get(cid, "E" if oracle != "direct" else None), got,
-                                   {"case": what, "why": why}))
+                                   {"case": what, "why": why, "sequence": seq} if oracle == "sequence" else {"case": what, "why": why}))
             continue
         # 2. correspondence with the proved model
         if mflag == "model":
@@ -133,6 +144,23 @@ def replay(ctx, path, prop, rerun):
     hb = C.build_harness("root", pkg="./cmd/c03", out="%s/h_root_cmd_c03_%s" % (C.BIN, prop))
     req = obj["request"]
     kind = req[0]
+    if obj.get("oracle") == "sequence" and obj.get("sequence"):
+        sq = obj["sequence"]
+        args = ["seq", "1" if sq["via_readmsg"] else "0"]
+        for k, p in sq["calls"]:
+            args += [k, p]
+        rc, out = C.sh([hb, "one"] + args, env=ctx.env())
+        bad = False
+        for l in out.splitlines():
+            f = l.split("\t")
+            if len(f) == 5 and f[0] == "step":
+                print("call %s: returned %s; re-read after the sequence %s; %s" % (f[1], short(f[2], 60), short(f[3], 60), f[4]))
+                if f[4].startswith("bad") or f[2] == "P":
+                    bad = True
+        if bad:
+            print("VIOLATION property=%s replay=%s" % (prop, path))
+            return 1
+        return 0
     if kind == "open":
         args = ["open", req[3], req[4]]
     elif kind == "seal":
